@@ -1,8 +1,11 @@
 #!/bin/sh
 # usage: tools/run_all.sh <tier> <seed> [ids...]   — run checks one after another, print the verdict lines
+# (uses the check launcher next to this script, so it also works inside a `vp run` snapshot; VERIF_JOBS limits the workers)
+here="$(cd "$(dirname "$0")/.." && pwd)"
 tier="${1:-quick}"; seed="${2:-0}"; shift 2 2>/dev/null
 ids="${*:-C01 C02 C03 C04 C05 C06 C07 C08 C09 C10 C11 C12 C13 C14 C15 C16 C17 C18 C19 C20}"
+out="${RUN_ALL_OUT:-/tmp}"
 for id in $ids; do
-  VERIF_SEED=$seed /verif/check $id --tier $tier > /tmp/run_all.$id.log 2>&1; rc=$?
-  echo "$id rc=$rc $(grep -E '^\[C..\] tier' /tmp/run_all.$id.log | cut -c1-150) $(grep -cE '^VIOLATION' /tmp/run_all.$id.log) viol $(grep -E '^INCONCLUSIVE' /tmp/run_all.$id.log | cut -c1-200)"
+  VERIF_SEED=$seed "$here/check" $id --tier $tier > "$out/run_all.$tier.$seed.$id.log" 2>&1; rc=$?
+  echo "$id rc=$rc $(grep -E '^\[C..\] tier' "$out/run_all.$tier.$seed.$id.log" | cut -c1-150) $(grep -cE '^VIOLATION' "$out/run_all.$tier.$seed.$id.log") viol $(grep -E '^INCONCLUSIVE' "$out/run_all.$tier.$seed.$id.log" | cut -c1-200)"
 done
